@@ -201,7 +201,7 @@ func drivePipe(args []string) int {
 			continue
 		}
 		// quiescence
-		deadline := time.Now().Add(2 * time.Second)
+		deadline := time.Now().Add(1000 * time.Millisecond)
 		for time.Now().Before(deadline) {
 			if atomic.LoadInt32(&file.closes) >= 1 && bclGoroutines() == "" {
 				break
